@@ -496,9 +496,101 @@ fn v1_payloads(fails: &mut Vec<Value>) {
     }
 }
 
+// the remaining argument kinds of the derive: a boxed trait object inside a Result (both arms), futures and closures with
+// Send / Sync bounds, a slice of strings' owners, Option and tuple arguments
+#[savefile_abi_exportable(version = 0)]
+pub trait KindsIface {
+    fn open(&self, id: u32) -> Result<Box<dyn Obj>, String>;
+    fn send_fut(&self, x: u32) -> Pin<Box<dyn Future<Output = String> + Send>>;
+    fn sync_fn(&self, f: &dyn Fn(u32) -> u32, x: u32) -> u32;
+    fn boxed_fnmut(&self, start: u32) -> Box<dyn FnMut(u32) -> u32>;
+    fn strings(&self, v: &[String]) -> String;
+    fn opt_tuple(&self, o: Option<(u8, String)>, t: (u16, u16)) -> Option<String>;
+}
+struct KindsImpl;
+impl KindsIface for KindsImpl {
+    fn open(&self, id: u32) -> Result<Box<dyn Obj>, String> {
+        if id % 2 == 0 {
+            Ok(Box::new(TheObj(DropToken(id))))
+        } else {
+            Err(format!("no object {}", id))
+        }
+    }
+    fn send_fut(&self, x: u32) -> Pin<Box<dyn Future<Output = String> + Send>> {
+        Box::pin(async move { format!("fut-{}", x) })
+    }
+    fn sync_fn(&self, f: &dyn Fn(u32) -> u32, x: u32) -> u32 {
+        f(x) + f(x + 1)
+    }
+    fn boxed_fnmut(&self, start: u32) -> Box<dyn FnMut(u32) -> u32> {
+        let mut acc = start;
+        Box::new(move |d| {
+            acc += d;
+            acc
+        })
+    }
+    fn strings(&self, v: &[String]) -> String {
+        v.join("|")
+    }
+    fn opt_tuple(&self, o: Option<(u8, String)>, t: (u16, u16)) -> Option<String> {
+        o.map(|(a, s)| format!("{}{}{}{}", a, s, t.0, t.1))
+    }
+}
+fn drive_str(mut f: Pin<Box<dyn Future<Output = String> + Send>>) -> String {
+    let flag = Arc::new(Flag(AtomicBool::new(false)));
+    let waker = Waker::from(flag);
+    let mut cx = Context::from_waker(&waker);
+    for _ in 0..100 {
+        if let Poll::Ready(v) = f.as_mut().poll(&mut cx) {
+            return v;
+        }
+    }
+    "never-ready".to_string()
+}
+fn other_kinds(fails: &mut Vec<Value>) {
+    let run = |iface: &dyn KindsIface| -> (Vec<String>, Vec<(u32, u32)>) {
+        DROPS.with(|d| d.borrow_mut().clear());
+        let mut out = vec![];
+        match iface.open(40) {
+            Ok(o) => out.push(format!("ok {}", o.id())),
+            Err(e) => out.push(format!("err {}", e)),
+        }
+        match iface.open(41) {
+            Ok(o) => out.push(format!("ok {}", o.id())),
+            Err(e) => out.push(format!("err {}", e)),
+        }
+        out.push(drive_str(iface.send_fut(9)));
+        let f = |v: u32| v * 3;
+        out.push(format!("{}", iface.sync_fn(&f, 5)));
+        let mut g = iface.boxed_fnmut(10);
+        out.push(format!("{} {}", g(1), g(2)));
+        drop(g);
+        out.push(iface.strings(&["a".to_string(), "".to_string(), "héé".to_string()]));
+        out.push(format!("{:?}", iface.opt_tuple(Some((7, "x".to_string())), (1, 65535))));
+        out.push(format!("{:?}", iface.opt_tuple(None, (0, 0))));
+        let mut drops: Vec<(u32, u32)> = DROPS.with(|d| d.borrow().iter().map(|(k, v)| (*k, *v)).collect());
+        drops.sort();
+        (out, drops)
+    };
+    let direct = run(&KindsImpl);
+    match catch_unwind(AssertUnwindSafe(|| AbiConnection::<dyn KindsIface>::from_boxed_trait(Box::new(KindsImpl)).map(|c| run(&c)))) {
+        Ok(Ok(through)) => {
+            if through != direct {
+                fails.push(json!({"check": "c09.kinds", "detail": format!("through the ABI {:?}, directly {:?}", through, direct)}));
+            }
+            if direct.1 != vec![(40, 1)] {
+                fails.push(json!({"check": "tool.kinds", "detail": format!("direct run drop registry {:?}", direct.1)}));
+            }
+        }
+        Ok(Err(e)) => fails.push(json!({"check": "c09.kinds.connect", "detail": format!("{}", e)})),
+        Err(p) => fails.push(json!({"check": "c09.kinds.panic", "detail": vcommon::panic_msg(p)})),
+    }
+}
+
 pub fn wide() -> Vec<Value> {
     let mut fails = vec![];
     v1_payloads(&mut fails);
+    other_kinds(&mut fails);
     let r = catch_unwind(AssertUnwindSafe(|| AbiConnection::<dyn ManyArgs>::from_boxed_trait(Box::new(ManyArgsImpl))));
     match r {
         Ok(Ok(c)) => {
